@@ -10,6 +10,10 @@ From Coq Require Import List Bool Arith String.
 Import ListNotations.
 From ZI Require Import Model.Adapt.
 
+(* the bases InterfaceClass.__new__ gives to a custom-methods class: the class [cls] it was called
+   with, and/or _InterfaceClassWithCustomMethods (which defines nothing) *)
+Inductive cbase := CCls | CWcm.
+
 (* methods called on self *)
 Inductive meth := MCallConform | MAdapt | MProvidedBy.
 (* exception classes named in `except` clauses *)
